@@ -69,6 +69,10 @@ const (
 	tkExt     tokenKind = "external"
 	tkSiphon  tokenKind = "external-siphon"
 	tkDelayed tokenKind = "external-approve"
+	// old-style token that signals failure through the return value of transfer instead of reverting (core.BonusToken in
+	// its lie modes): tkLie moves nothing and returns false, tkLieMove moves the tokens and returns false
+	tkLie     tokenKind = "external-returns-false"
+	tkLieMove tokenKind = "external-moves-and-returns-false"
 )
 
 // pairInfo is the generator's ground truth about one registered voucher.
@@ -321,6 +325,12 @@ func (w *world) buildRegistry() {
 			token = w.deploy(w.bctx(), erc20contracts.ERC20DirectBalanceManipulationContract, big.NewInt(1000000))
 		case tkDelayed:
 			token = w.deploy(w.bctx(), erc20contracts.ERC20MaliciousDelayedContract, big.NewInt(1000000))
+		case tkLie, tkLieMove:
+			nonce, err := w.tpB.AccountKeeper.GetSequence(w.bctx(), w.deployer.Bytes())
+			must(err, "deployer sequence")
+			token = crypto.CreateAddress(w.deployer, nonce)
+			_, err = w.tpB.AggregateKeeper.CallEVMWithData(w.bctx(), w.deployer, nil, core.InitCode(core.BonusToken()))
+			must(err, "deploy returns-false token")
 		}
 		_, err := k.RegisterERC20(w.bctx(), token)
 		must(err, "RegisterERC20 "+label)
@@ -330,12 +340,20 @@ func (w *world) buildRegistry() {
 		if fund {
 			must(w.evmCall(w.bctx(), w.deployer, token, "mint", aggtypes.ModuleAddress, big1e30), "fund module escrow "+label)
 		}
+		if kind == tkLie || kind == tkLieMove {
+			mode := map[tokenKind]int64{tkLieMove: 1, tkLie: 2}[kind]
+			data := append([]byte{0x0c, 0x0c, 0x0c, 0x0c}, common.LeftPadBytes(big.NewInt(mode).Bytes(), 32)...)
+			_, err = w.tpB.AggregateKeeper.CallEVMWithData(w.bctx(), w.deployer, &token, data)
+			must(err, "set return-value mode "+label)
+		}
 		w.addPair(&pairInfo{label: label, base: base, ch: ch, voucher: v, token: token, kind: kind})
 	}
 	external("ext0", 0, "uext", tkExt, true)
 	external("extdry1", 1, "uextdry", tkExt, false)
 	external("siphon0", 0, "usiphon", tkSiphon, true)
 	external("delay0", 0, "udelay", tkDelayed, true)
+	external("lie0", 0, "ulie", tkLie, true)
+	external("liemove0", 0, "uliemove", tkLieMove, true)
 
 	// unregistered vouchers with supply
 	w.seedVoucher(0, "ufree", w.users[0], 1000)
@@ -357,7 +375,7 @@ func (w *world) buildRegistry() {
 }
 
 // aDenoms are the denominations A's sender account holds (honest MsgTransfer).
-var aDenoms = []string{"uatom", "uosmo", "upause", "udead", "uext", "uextdry", "usiphon", "udelay", "ufree", "unew", "umulti0", "umulti1"}
+var aDenoms = []string{"uatom", "uosmo", "upause", "udead", "uext", "uextdry", "usiphon", "udelay", "ufree", "unew", "umulti0", "umulti1", "ulie", "uliemove"}
 
 func (w *world) fundA() {
 	ctx := w.A.GetContext()
